@@ -2,6 +2,12 @@ import json, os, re
 import vlib
 
 
+class HarnessCrash(Exception):
+    def __init__(self, msg, last_input):
+        Exception.__init__(self, msg)
+        self.last_input = last_input
+
+
 def harness(v, pid, binary, cmd, tier, seed, need_rocks=False, extra_args=(), timeout=3000, race=False):
     """Scratch copy -> build -> run one harness command. Returns (scratch, result dict) ; caller cleans up."""
     s = vlib.Scratch(pid)
@@ -15,7 +21,11 @@ def harness(v, pid, binary, cmd, tier, seed, need_rocks=False, extra_args=(), ti
     res_path = os.path.join(s.work, "result.json")
     if rc != 0 or not os.path.exists(res_path):
         tail = out[-3000:]
+        last = os.path.join(s.work, "current_input.json")
+        last_input = open(last).read() if os.path.exists(last) else None
         s.cleanup()
+        if last_input is not None:
+            raise HarnessCrash("harness process died (rc=%s) while handling an input:\n%s" % (rc, tail[-1500:]), last_input)
         raise RuntimeError("harness command %s %s failed rc=%s:\n%s" % (binary, cmd, rc, tail))
     res = json.load(open(res_path))
     res["_stdout"] = out[-2000:]
